@@ -305,6 +305,47 @@ pub fn hcalc_reducer_scrambled(s: &mut Src) -> R {
     Ok(())
 }
 
+// C07 at the level of complexes (BOUNDED, sampled): GenericChainComplex::homology() on scrambled three-term complexes over BigInt, plain and
+// through reduced(): per degree the rank / torsion of the direct computation, every reported generator is a cycle with standard
+// coordinates, and the coordinate map of H[j] is defined on every chain of degree j and sends every boundary to zero -- also where a
+// chain group of the reduced complex has rank 0.
+pub fn hcalc_complex_level(s: &mut Src) -> R {
+    use num_bigint::BigInt;
+    use num_traits::{Signed, Zero};
+    use yui_homology::{ChainComplexTrait, GenericChainComplex, GridTrait, SummandTrait};
+    let (a1, a2, f, kd, (_n2, _n1, n0)) = scrambled_complex(s)?;
+    let reduced = s.bool();
+    reach!();
+    let ds = [a1.clone(), a2.clone(), SpMat::<BigInt>::zero((0, n0))];
+    let c0 = GenericChainComplex::<BigInt>::generate(0..=2isize, 1, |i| ds[i as usize].clone());
+    let c = if reduced { c0.reduced() } else { c0.clone() };
+    let h = c.homology();
+    // H_1 as planted: free rank f, torsion = the non-unit k_i
+    fn g(a: i64, b: i64) -> i64 { if b == 0 { a.abs() } else { g(b, a % b) } }
+    let mut inv: Vec<i64> = kd.clone();                         // invariant factors of diag(k): repeatedly (a, b) -> (gcd, lcm)
+    for i in 0..inv.len() { for j in i + 1..inv.len() { let (x, y) = (inv[i], inv[j]); let gg = g(x, y); inv[i] = gg; inv[j] = x / gg * y; } }
+    let mut want: Vec<BigInt> = inv.iter().filter(|&&x| x > 1).map(|&x| BigInt::from(x)).collect(); want.sort();
+    let mut got: Vec<BigInt> = h[1].tors().iter().map(|x| x.abs()).collect(); got.sort();
+    ob!(h[1].rank() == f && got == want, "ChainComplex::homology::H1-rank-and-torsion-as-planted");
+    for i in 0..=2isize {
+        for k in 0..h[i].dim() {
+            let z = h[i].gen(k);
+            ob!(c.d(i, &z).is_zero(), "ChainComplex::homology::generator-is-a-cycle");
+            let v = h[i].vectorize(&z).to_dense();
+            ob!(v.len() == h[i].dim() && (0..v.len()).all(|l| if l == k { v[l] == BigInt::from(1) } else { v[l].is_zero() }), "ChainComplex::homology::generator-has-standard-coordinates");
+        }
+        let j = i + 1;
+        if j > 2 { continue; }
+        for k in 0..c0[i].rank() {
+            let x = c0[i].gen(k);
+            let b = c0.d(i, &x);
+            let v = h[j].vectorize_euc(&b);
+            ob!(v.dim() == h[j].dim() && v.is_zero(), "ChainComplex::homology::boundary-has-zero-coordinates");
+        }
+    }
+    Ok(())
+}
+
 // C08, clause "for tracked vectors" (BOUNDED, sampled): vectors added with add_vec are transported by every reduction step exactly as the
 // reported forward map transports them: after reduce_all (shallow, then deep) and after explicit reduce_at_spec steps with every pivot
 // strategy, vecs(i)[k] == trans(i).forward(v_k) in each degree, on scrambled complexes of arbitrary small shape (incl. m < n and m > n).
@@ -416,4 +457,4 @@ pub fn hcalc_triang_shapes(s: &mut Src) -> R {
     Ok(())
 }
 
-crate::harness_table!(HCALC: hcalc_small, hcalc_schur_small, hcalc_triang_small, hcalc_reducer_small, hcalc_decomp_small, hcalc_scrambled, hcalc_reducer_scrambled, hcalc_schur_shapes, hcalc_triang_shapes, hcalc_reducer_vecs);
+crate::harness_table!(HCALC: hcalc_small, hcalc_schur_small, hcalc_triang_small, hcalc_reducer_small, hcalc_decomp_small, hcalc_scrambled, hcalc_reducer_scrambled, hcalc_schur_shapes, hcalc_triang_shapes, hcalc_reducer_vecs, hcalc_complex_level);
